@@ -1,6 +1,7 @@
 (** C21 — the traversal queue keeps its ordering and coverage rules. *)
 From Aranya Require Import base.Tactics gen.GenQueue model.TravQueue
   proofs.TravQueueVec proofs.TravQueueMoves proofs.TravQueueSpec proofs.TravQueueProofs.
+From Coq Require Import Sorting.Sorted.
 
 (** Every sequence of queue operations, from every well-formed state: no
     Bug/Panic/Fuel outcome, each step refines the multiset specification
@@ -44,3 +45,27 @@ Check spec_functional :
     uniq_ms m -> spec m o m1 v1 -> spec m o m2 v2 ->
     Permutation m1 m2 /\ out_equiv v1 v2.
 Print Assumptions spec_functional.
+
+(** Any number of consecutive pops drains in non-increasing max-cut order
+    (a heap-sort of the multiset), leaves only entries at most as high as
+    every popped one, and popped + remaining is exactly what was queued. *)
+Theorem pops_descending : pops_descending_stmt.
+Proof. exact pops_descending_proof. Qed.
+Check pops_descending :
+  forall (xs : list (loc * bool)) (m m' : ms), spec_pops m xs m' ->
+    Permutation m (xs ++ m')
+    /\ StronglySorted mc_ge xs
+    /\ forall x y, In x xs -> In y m' -> mc_ge x y.
+Print Assumptions pops_descending.
+
+(** ... and for the model of the code itself: [n] consecutive [pop_covered]
+    calls on any well-formed queue never fail and return their entries in
+    non-increasing max-cut order, each one an entry of the starting queue. *)
+Theorem queue_pops_descending : queue_pops_descending_stmt.
+Proof. exact queue_pops_descending_proof. Qed.
+Check queue_pops_descending :
+  forall (n : nat) (q0 : queue), rep_ok q0 ->
+    exists tr, run q0 (repeat OPopCovered n) = Ok tr
+      /\ forall xs, popped tr = Some xs ->
+           StronglySorted mc_ge xs /\ forall x, In x xs -> In x (absq q0).
+Print Assumptions queue_pops_descending.
